@@ -14,6 +14,9 @@ CLAIMS = {
  "C04": ("model_checking", "Every operator and built-in applied to argument pools (dyadic numbers, tolerance-edge offsets, exact big integers across 2^53 and 2^63, inf/nan, escaped and non-ASCII strings, times, lists and maps with duplicates): the specification's exact value is compared by TLC, element by element, with the value observed on each back end.", EVAL_TECH),
  "C05": ("model_checking", "All one-operator programs (well- and ill-typed) over the vocabulary, plus the focused universes: TLC compares observed acceptance (compile time, on every back end) and inferred type with the specification's transcription of the checker (exact mono overload first, else first registered poly overload that instantiates with a concrete result).", EVAL_TECH),
  "C06": ("model_checking", "Tracing host functions in every operand position and failing sub-expressions in every unselected position: TLC compares the ordered host-call log and outcome observed on each back end with the specification's (strict positions left to right once, lazy callees force only what they select).", EVAL_TECH),
+ "C08": ("model_checking", "Precedence, associativity, fixity and non-chaining are invariants of the specification's transcription of the Pratt parser over a family of operator tables (every fixity x a grid of integer and fractional binding powers) and all short token strings; every case runs through the real lexer and parser and TLC compares acceptance, the tree, every node's span and debug column, and re-evaluates non-associativity on the observed tree.", "TLA+ transcription of the Pratt parser (YaeParser) with threaded eat counter; TLC invariants over operator-table families; trace validation of recorded trees and spans"),
+ "C09": ("model_checking", "Token partition, exact positions, longest-operator, whole-word and ./? rules are invariants of the specification's rule-ordered lexer machine over all concatenations of atoms (operator characters, letters incl. non-ASCII, digits, quotes, white space, newlines, words) for six operator sets; every input is lexed by the real lexer and TLC compares the token sequence with positions and re-evaluates the declarative properties on the observed tokens.", "TLA+ lexer machine (YaeLexer: rule list, operator sort, literal automata, cursor) + declarative token properties; TLC exhaustive enumeration; trace validation of recorded tokens"),
+ "C10": ("model_checking", "Core-only, idempotent, order-preserving desugaring are invariants of the specification's Desugar over all short token strings of a sugar-rich alphabet plus longer shapes; the real desugarer's output (with positions), the original tree after desugaring, a second desugaring of the same tree and the twice-desugared tree are compared by TLC; sugared notations (?:, method syntax) of well-typed programs are evaluated on all back ends against the specification's value of the explicit calls.", "TLA+ Desugar (YaeDesugar) + parser transcription; TLC invariants; trace validation of before/after/again/twice trees and of sugared-notation evaluations"),
  "C11": ("model_checking", "For every program of the universes the bytecode the REAL compiler emitted (bytes, constant pool, thunk bodies, exported by the verif hook) is verified structurally by the specification's verifier (complete decoding, operand kinds and ranges, forward jumps to instruction boundaries, one non-negative stack depth per offset, depth one at the final return), and the recorded run is checked never to execute an offset twice within one activation; the same verifier holds of the specification's own compilation scheme as a TLC invariant.", "TLA+ bytecode verifier (YaeVM!VerifyBC) applied by TLC to each implementation-emitted bytecode (per-program translation validation) + TLC invariant on the specified compilation scheme"),
  "C16": ("model_checking", "Every built-in / operator / access with an optional in every argument position: TLC compares observed acceptance with the specification's checker (only get(optional, default) and bare type variables admit it), and accepted programs evaluate without failure.", EVAL_TECH),
  "C17": ("model_checking", "TLC model-checks the type-equality and unification laws on the specification's transcription of types/{equals,unify}.go over all depth<=1 type pairs and pattern/ground tuples; every enumerated pair plus seeded deeper pairs (incl. shared sub-term pointers) is executed through types.Equals/types.Unify, and TLC judges each recorded observation (result, substitution, laws on the observed answers).", "TLA+ spec (YaeTypes) + TLC exhaustive enumeration + trace validation of recorded observations"),
